@@ -397,7 +397,7 @@ def main() -> int:
         return 0
     if a.cmd == 'suite':
         rows = [json.loads(l) for l in open(a.inp)]
-        todo = [r for r in rows if not r['fired'] and not r['errors']]
+        todo = [r for r in rows if not r['fired']]
         if a.files:
             todo = [r for r in todo if r['file'] in a.files.split(',')]
         if a.limit:
